@@ -22,7 +22,7 @@ RULE = ('Each run draws an entry point (kcenters / kmedoids / hybrid; function o
 BUDGET = {'quick': dict(runs=3000, wall_s=55, chunk=25), 'thorough': dict(runs=60000, wall_s=780, chunk=50)}
 COMPONENTS = {'real': ['enspara.cluster.kcenters/kmedoids/hybrid/util', 'enspara.mpi.ops', 'compiled libdist kernels'],
               'stub': ['MPI library (simmpi)', 'heap allocator (simalloc)']}
-ASSUMPTIONS = ['for md.Trajectory data the metric model is mdtraj.rmsd itself on the whole data set; two evaluations of one RMSD may differ by sqrt(d^2 + 4e-6) - d (batch-dependent last bits of the float32 routine; a frame against itself gives 0..4e-4), reported values are compared with that allowance, near-ties inside it make a scenario not tie-free, and because mdtraj.rmsd moves the frames it is given to their centroid in place, centres and the caller\'s data are compared up to that translation', 'data sets consist of distinct points', 'ties between equidistant centres may be broken either way; '
+ASSUMPTIONS = ['for md.Trajectory data the metric model is mdtraj.rmsd itself on the whole data set; two evaluations of one RMSD may differ by sqrt(d^2 + 2e-4) - d (the float32 routine evaluated on frames already moved to their centroid, or in another batch; measured up to 1e-5 in the mean squared deviation, heavy-tailed), reported values are compared with that allowance, near-ties inside it make a scenario not tie-free, and because mdtraj.rmsd moves the frames it is given to their centroid in place, centres and the caller\'s data are compared up to that translation', 'data sets consist of distinct points', 'ties between equidistant centres may be broken either way; '
                'only minimality of the reported distance is demanded',
                'explicit proposals are members of the cluster being updated (one real proposal per sweep, the other '
                'clusters re-propose their current centre)',
